@@ -2,6 +2,8 @@
 
 #pragma once
 
+#include <array>
+#include <cmath>
 #include <limits>
 #include <numbers>
 
@@ -229,15 +231,26 @@ Spline<K, smooth::SE2d> dubins_curve(const smooth::SE2d & gb, double R)
 {
   const auto desc = detail::dubins(gb, R);
 
+  // piece lengths
+  std::array<double, 3> len;
+  for (auto i = 0u; i != 3; ++i) {
+    len[i] = desc[i].first == detail::DubinsSegment::Straight ? desc[i].second : R * desc[i].second;
+  }
+
+  // A degenerate piece (an arc or line that is zero up to rounding) is dropped: it moves the end point by less than
+  // min_len, while its duration is not resolved by the accumulated segment times of the spline.
+  const double min_len = std::sqrt(std::numeric_limits<double>::epsilon()) * (len[0] + len[1] + len[2]);
+
   Spline<K, smooth::SE2d> ret;
   for (auto i = 0u; i != 3; ++i) {
-    const auto & [c, l] = desc[i];
+    if (!(len[i] > min_len)) { continue; }
+    const auto c = desc[i].first;
     if (c == detail::DubinsSegment::Left) {
-      ret += Spline<K, smooth::SE2d>::ConstantVelocity(Eigen::Vector3d(1, 0, 1. / R), R * l);
+      ret += Spline<K, smooth::SE2d>::ConstantVelocity(Eigen::Vector3d(1, 0, 1. / R), len[i]);
     } else if (c == detail::DubinsSegment::Right) {
-      ret += Spline<K, smooth::SE2d>::ConstantVelocity(Eigen::Vector3d(1, 0, -1. / R), R * l);
+      ret += Spline<K, smooth::SE2d>::ConstantVelocity(Eigen::Vector3d(1, 0, -1. / R), len[i]);
     } else {
-      ret += Spline<K, smooth::SE2d>::ConstantVelocity(Eigen::Vector3d(1, 0, 0), l);
+      ret += Spline<K, smooth::SE2d>::ConstantVelocity(Eigen::Vector3d(1, 0, 0), len[i]);
     }
   }
   return ret;
